@@ -1,8 +1,10 @@
 package props
 
 import (
+	"bytes"
 	"context"
 	"fmt"
+	"os"
 	"reflect"
 	"sort"
 	"strings"
@@ -369,10 +371,126 @@ func c17build(c c17case, rnd *vf.Rand) (b c17built, ok bool) {
 		}
 		b.r = exec.VerifTaskBufferReader(parts, want)
 		b.ups = nil
+	case "decoding", "spill", "filestore", "memstore":
+		// the rows are written in batches following the chunk script (an empty chunk writes nothing)
+		var batches []frame.Frame
+		sc := script(0)
+		for off, k := 0, 0; off < len(in); k++ {
+			n := 1 << 20
+			if len(sc) > 0 {
+				n = sc[k%len(sc)].N
+			}
+			if n == 0 {
+				n = 1 + k%3
+			}
+			if n > len(in)-off {
+				n = len(in) - off
+			}
+			f, _ := frameOf(ts, in[off:off+n], 0)
+			batches = append(batches, f)
+			off += n
+		}
+		b.want = in
+		b.ups = nil
+		ctx := context.Background()
+		switch c.Subject {
+		case "decoding":
+			var buf bytes.Buffer
+			enc := sliceio.NewEncodingWriter(&buf)
+			for _, f := range batches {
+				if err := enc.Write(ctx, f); err != nil {
+					panic(err)
+				}
+			}
+			b.r = sliceio.NewDecodingReader(&buf)
+		case "spill":
+			sp, err := sliceio.NewSpiller("c17")
+			if err != nil {
+				panic(err)
+			}
+			if len(batches) == 0 {
+				sp.Cleanup()
+				return b, false
+			}
+			// one spill file per group of batches: Param decides how many batches go into each file
+			per := 1 + c.Param%3
+			saved := sliceio.SpillBatchSize
+			sliceio.SpillBatchSize = []int{128, 3, 1, 50}[c.Param/3%4]
+			defer func() { sliceio.SpillBatchSize = saved }()
+			var rs []sliceio.Reader
+			for i := 0; i < len(batches); i += per {
+				n := 0
+				for _, f := range batches[i:min(i+per, len(batches))] {
+					n += f.Len()
+				}
+				g := frame.Make(batches[i], n, n)
+				o := 0
+				for _, f := range batches[i:min(i+per, len(batches))] {
+					frame.Copy(g.Slice(o, n), f)
+					o += f.Len()
+				}
+				if _, err := sp.Spill(g); err != nil {
+					panic(err)
+				}
+			}
+			rcs, err := sp.Readers()
+			if err != nil {
+				panic(err)
+			}
+			for _, rc := range rcs {
+				rs = append(rs, rc)
+			}
+			b.r = sliceio.MultiReader(rcsOf(rs)...)
+			b.ordered = false
+			b.post = func() string { sp.Cleanup(); return "" }
+		default:
+			var store exec.Store
+			dir := ""
+			if c.Subject == "filestore" {
+				dir, _ = os.MkdirTemp("", "c17-")
+				store = exec.VerifFileStore(dir + "/")
+			} else {
+				store = exec.VerifMemoryStore()
+			}
+			name := exec.TaskName{InvIndex: 1, Op: "verif_c17", Shard: 0, NumShard: 1}
+			w, err := store.Create(ctx, name, 0)
+			if err != nil {
+				panic(err)
+			}
+			enc := sliceio.NewEncodingWriter(w)
+			for _, f := range batches {
+				if err := enc.Write(ctx, f); err != nil {
+					panic(err)
+				}
+			}
+			if err := w.Commit(ctx, int64(len(in))); err != nil {
+				panic(err)
+			}
+			rc, err := store.Open(ctx, name, 0, 0)
+			if err != nil {
+				panic(err)
+			}
+			b.r = sliceio.NewDecodingReader(rc)
+			b.post = func() string {
+				rc.Close()
+				if dir != "" {
+					os.RemoveAll(dir)
+				}
+				return ""
+			}
+		}
 	default:
 		panic("unknown subject " + c.Subject)
 	}
 	return b, true
+}
+
+func rcsOf(rs []sliceio.Reader) []sliceio.ReadCloser {
+	out := make([]sliceio.ReadCloser, len(rs))
+	for i, r := range rs {
+		out[i] = r.(sliceio.ReadCloser)
+	}
+	return out
 }
 
 // cogroupRows converts cogroup output (key, []string per input) into comparable rows.
@@ -575,7 +693,7 @@ func runC17scanner(t *vf.T, c c17case, rnd *vf.Rand) {
 }
 
 var c17subjects = []string{"const", "readerfunc", "map", "filter", "flatmap", "fold", "head", "writerfunc", "scan", "reshuffle", "reduce", "cogroup",
-	"multi", "execmulti", "framereader", "taskbuffer", "scanner", "scannerv", "scanner-badarity", "scanner-badtype"}
+	"multi", "execmulti", "framereader", "taskbuffer", "decoding", "spill", "filestore", "memstore", "scanner", "scannerv", "scanner-badarity", "scanner-badtype"}
 
 // subjects whose documented contract excludes upstream reads that return (0, nil)
 var c17noEmptyReads = map[string]bool{"reduce": true}
